@@ -530,6 +530,10 @@ func c07(w *core.World, r *core.Report) {
 	// ---- RELEASE-ON-ERROR (shared with C06)
 	r.Rule("TRYLOCK-PAIR", 3, "(shared with C06) TryLock paired with deferred Unlock on every path: the datastore is unlocked on every error return.")
 	ruleTryLockPair(w, r)
+
+	// ---- CLEANUP-ALWAYS (shared with C06)
+	r.Rule("CLEANUP-ALWAYS", 2, "TransactionManager.GetTransaction and CleanupTransaction fail only with 'no open transaction' or 'another id' (every return with a non-nil error is on the nil outcome of a test of the slot, on the unequal outcome of transactionId vs id, or hands on GetTransaction's error): the guard cleanup that unregisters a transaction after a failed apply discards their error, so any other refusal keeps the datastore locked and a retry can never converge.")
+	ruleCleanupOnlyIdFailures(w, r, "CLEANUP-ALWAYS")
 }
 
 // modifyStore returns the constant Store of the Opts literal passed to a Modify call ("CONFIG", "INTENDED", ... or "?").
